@@ -241,11 +241,17 @@ Section Samples.
   Definition json_save (s : sample) : (cell * cell * cell * list (string * cell)) :=
     (fmt (s_ll s), fmt (s_lp s), fmt (s_w s),
      dict_of_list string_dec (map (fun kv => (key_str (fst kv), fmt (snd kv))) (s_kw s))).
-  Definition json_load (fx : bool) (j : cell * cell * cell * list (string * cell)) : sample :=
+  (* The "dict" branch of ModelObject.from_dict (registered as the parser of {"type": "dict"}) keeps an entry only
+     `if value`: a parameter whose value is 0.0 or -0.0 is dropped.  drop0 = true is the pinned code,
+     drop0 = false the code after proposed_fixes/C09-summary-zero-value.diff.  is_zero v <-> v == 0.0 *)
+  Context (is_zero : V -> bool).
+  Definition json_load (fx drop0 : bool) (j : cell * cell * cell * list (string * cell)) : sample :=
     match j with
     | (ll, lp, w, kw) =>
         mkSample (parse ll) (parse lp) (parse w)
-          (sample_init fx (map (fun hv => (KStr (fst hv), parse (snd hv))) kw))
+          (sample_init fx (map (fun hv => (KStr (fst hv), snd hv))
+                               (filter (fun hv => negb (drop0 && is_zero (snd hv)))
+                                       (map (fun hv => (fst hv, parse (snd hv))) kw))))
     end.
 
   (* -------------------------------------------------------------- EfficientSamples (database) *)
@@ -306,7 +312,7 @@ Section Samples.
     res_bind (csv_save tps Ws S) (csv_load fx).
   Definition db_roundtrip (fx : bool) (S : list sample) : res (list sample) :=
     res_bind (eff_of S) (fun e => Ok (eff_samples fx e)).
-  Definition json_roundtrip (fx : bool) (s : sample) : sample := json_load fx (json_save s).
+  Definition json_roundtrip (fx drop0 : bool) (s : sample) : sample := json_load fx drop0 (json_save s).
 End Samples.
 
 Arguments sample V : clear implicits.
@@ -322,6 +328,7 @@ From PAFC09 Require Import Variant.
 Definition fsample := sample float.
 Definition fid (x : float) : float := x.
 Definition fgtb (a b : float) : bool := PrimFloat.ltb b a.
+Definition fzero (a : float) : bool := PrimFloat.eqb a 0%float.
 
 Fixpoint list_eqb {A} (eqb : A -> A -> bool) (a b : list A) : bool :=
   match a, b with
@@ -399,9 +406,9 @@ Definition check_case (c : case) : bool :=
       let S := f_from_lists t rows in
       match max_ll_sample fgtb S with
       | Some m =>
-          let m' := json_roundtrip fid fid fx m in
+          let m' := json_roundtrip fid fid fzero fx dict_drops_zero m in
           let med := from_row fx Ws (median, s_ll m, s_lp m, s_w m) in
-          let med' := json_roundtrip fid fid fx med in
+          let med' := json_roundtrip fid fid fzero fx dict_drops_zero med in
           sample_eqb m' lmax && res_eqb flist_eqb (param_list tps Ws m') vmax
           && sample_eqb med' lmed && res_eqb flist_eqb (param_list tps Ws med') vmed
       | None => false
